@@ -521,7 +521,9 @@ func caseFoldSuspect(v wire.V, exact, lower map[string]bool) bool {
 	return sus
 }
 
-var mutationScalars = []string{`null`, `true`, `false`, `0`, `-1`, `1.5`, `1e400`, `99999999999999999999`, `""`, `"x"`, `[]`, `{}`, `[null]`, `[1,"a"]`, `{"a":null}`, `[[]]`, `"#/definitions/a"`, `"%zz"`, `"http://[::1"`, `" "`, `{"$ref":"#/x"}`, `{"$ref":1}`, `[{}]`}
+var mutationScalars = []string{`null`, `true`, `false`, `0`, `-1`, `1.5`, `1e400`, `99999999999999999999`, `""`, `"x"`, `[]`, `{}`, `[null]`, `[1,"a"]`, `{"a":null}`, `[[]]`, `"#/definitions/a"`, `"%zz"`, `"http://[::1"`, `" "`, `{"$ref":"#/x"}`, `{"$ref":1}`, `[{}]`,
+	// the root reference in its two spellings (it prints as the empty string), alone and beside other members
+	`{"$ref":"#"}`, `{"$ref":""}`, `"#"`, `{"$ref":"#","description":"d"}`, `{"$ref":"//"}`}
 
 // mutate returns a structurally mutated copy of v.
 func mutate(c *Ctx, v wire.V, budget *int) wire.V {
